@@ -31,6 +31,8 @@ type Conf struct {
 	ClientName  string
 	Settings    []ch.Setting
 	Otel        bool
+	FrameChunk  int // reference server: max payload bytes per compressed frame (0 = one frame per block)
+	LCKeyWidth  int // reference server: LowCardinality key type at least this wide
 }
 
 func (c *Conf) Negotiated() int { return min(c.ClientRev, c.ServerRev) }
@@ -86,6 +88,8 @@ func DrawConf(c *choice.Stream) *Conf {
 		cf.Level = c.Pick("comp.level", 0, 1, 3, 9, 12, 13)
 	}
 	cf.ReadTimeout = []time.Duration{0, 10 * time.Millisecond, time.Second}[c.Weighted("readtimeout", 4, 1, 1)]
+	cf.FrameChunk = c.Pick("srv.framechunk", 0, 0, 0, 3, 33, 1000)
+	cf.LCKeyWidth = c.Pick("srv.lckeys", 0, 0, 0, 1, 2, 3)
 	cf.Hello = refproto.ServerHello{Name: "ClickHouse", Major: 23, Minor: 8, Revision: cf.ServerRev, Timezone: "UTC", DisplayName: "sim", Patch: 3}
 	return cf
 }
@@ -194,6 +198,8 @@ func logsBlock(l []LogRow) *refproto.Block {
 
 // Encode returns the wire bytes of the packet at the negotiated revision.
 func (p *SPacket) Encode(cf *Conf) []byte {
+	refproto.FrameChunk, refproto.LCKeyWidth = cf.FrameChunk, cf.LCKeyWidth
+	defer func() { refproto.FrameChunk, refproto.LCKeyWidth = 0, 0 }()
 	var w refproto.W
 	rev := cf.Negotiated()
 	var err error
